@@ -75,6 +75,50 @@ def slug(s: str, n: int = 80) -> str:
     return s2 or "case"
 
 
+def scribble(x):
+    """Overwrite a tensor the harness handed to the library, after the call returned: if the library kept an alias of the
+    caller's tensor instead of a copy, its stored state is corrupted and the next comparison with the model sees it."""
+    import torch
+
+    if not isinstance(x, torch.Tensor) or x.numel() == 0:
+        return
+    with torch.no_grad():
+        if x.dtype == torch.bool:
+            x.logical_not_()
+        elif x.is_floating_point():
+            x.mul_(-3.0).add_(7.5)
+        else:
+            x.add_(13)
+
+
+class Guard:
+    """Caller-side contract for tensors handed to the library: (1) the call must not modify them in place, (2) the library must
+    not keep an alias - after the call they are overwritten (``scribble``) before any state is compared with the model."""
+
+    def __init__(self, *tensors):
+        import torch
+
+        self.t = [x for x in tensors if isinstance(x, torch.Tensor)]
+        self.keep = [x.clone() for x in self.t]
+
+    def mutated(self):
+        import torch
+
+        return [i for i, (a, b) in enumerate(zip(self.t, self.keep))
+                if a.shape != b.shape or not torch.equal(torch.nan_to_num(a.float()), torch.nan_to_num(b.float()))]
+
+    def release(self, tally=None, key=None, case=None):
+        """reports an in-place modification (if a tally is given), then scribbles; returns True when the inputs came back untouched"""
+        bad = self.mutated()
+        if bad and tally is not None:
+            i = bad[0]
+            tally.violation(key or "input-mutated", case or {}, f"the call modified the caller's tensor (argument {i}) in place: "
+                            f"{self.keep[i].reshape(-1).tolist()[:8]} -> {self.t[i].reshape(-1).tolist()[:8]}", self.keep[i].tolist(), self.t[i].tolist())
+        for x in self.t:
+            scribble(x)
+        return not bad
+
+
 class Violation(dict):
     """key: stable identity of *what fails* (used for known-finding matching and dedup)."""
 
